@@ -12,8 +12,9 @@ structure St where
   conns : List (Nat × Nat)
   callers : List (Nat × Nat)
   classes : List (Nat × Nat)
+  lastId : String   -- request-id facts of the last request (C16's business): reported on a line of its own
 
-def St.init : St := ⟨Heap.empty, [], [], [], [], []⟩
+def St.init : St := ⟨Heap.empty, [], [], [], [], [], "none"⟩
 
 def find (t : List (Nat × Nat)) (n : Nat) : Option Nat := (t.find? (·.1 = n)).map (·.2)
 
@@ -203,17 +204,37 @@ def showHVal : HVal → String
   | .bool false => "F"
   | .pyNone => "N"
 
+/-- runs of `/` collapsed (the joints address | prefixes | path are not spelled out by the property;
+the exact url is answered by the diagnostic `lastid` line) -/
+def collapseSlashes : Bool → Str → Str
+  | _, [] => []
+  | prev, c :: r =>
+    if c = '/' then (if prev then collapseSlashes true r else '/' :: collapseSlashes true r)
+    else c :: collapseSlashes false r
+
+def canonUrl : Str → Str
+  | ':' :: '/' :: '/' :: r => ':' :: '/' :: '/' :: collapseSlashes false r
+  | c :: r => c :: canonUrl r
+  | [] => []
+
 def showSent (s : Sent) (same : Bool) : String :=
   match s.resp with
   | .error e => "err " ++ e.name ++ " n=1" ++ (if same then "" else " same=0")
   | .ok rv =>
-  let hs := (sortDict s.headers).map fun kv => showCps kv.1 ++ ":" ++ showHVal kv.2
-  "ok u=" ++ showCps s.url ++ " m=" ++ showCps s.method
+  -- the request-id header is left out here: presence, value and number are answered by `lastid`
+  let hs := ((sortDict s.headers).filter fun kv => lower kv.1 != Gen.C17.idHeaderLower).map
+    fun kv => showCps kv.1 ++ ":" ++ showHVal kv.2
+  "ok u=" ++ showCps (canonUrl s.url) ++ " m=" ++ showCps s.method
     ++ " h=" ++ (if hs.isEmpty then "-" else ";".intercalate hs)
     ++ " d=" ++ (match s.body with | none => "n" | some b => showNatList b)
-    ++ " id=" ++ (match s.genId with | none => "n" | some n => toString n)
     ++ " r=" ++ showJson rv
     ++ " same=" ++ (if same then "1" else "0")
+
+def showIdInfo (s : Sent) : String :=
+  "id=" ++ (match s.genId with | none => "n" | some n => toString n) ++ " h=" ++
+    (match s.headers.find? fun kv => lower kv.1 = Gen.C17.idHeaderLower with
+     | some kv => showHVal kv.2
+     | none => "absent") ++ " u=" ++ showCps s.url
 
 /-- the caller's objects: dictionaries and adapter lists -/
 def userSnapshot (H : Heap) (upto : Heap) : List (Option Dict) × List (Option (List Adapter)) :=
@@ -226,8 +247,12 @@ def exec (st : St) (op : Op) (bind : St → Nat → St) : St × String :=
   match r with
   | .ok .unit => (st', "ok")
   | .ok (.ref n) => (bind st' n, "ok")
-  | .ok (.sent s) => (st', showSent s same)
+  | .ok (.sent s) => ({ st' with lastId := showIdInfo s }, showSent s same)
   | .error e =>
+    let st' := match op with
+      | .request .. | .call .. => { st' with lastId := "none" }
+      | _ => st'
+
     let sent := match op with
       | .request .. | .call .. => " n=0"
       | _ => ""
@@ -239,6 +264,7 @@ def handle (st : St) (line : String) : St × String :=
   let bad := (st, "bad-op")
   match splitWs line with
   | ["reset"] => (St.init, "ok")
+  | ["lastid"] => (st, st.lastId)
   | ["list", name, as] =>
     match name.toNat?, parseAdapters as with
     | some nm, some l => exec st (.newList l) fun s n => { s with lists := (nm, n) :: s.lists }
